@@ -140,6 +140,15 @@ def search_sector_mapping(chk, r):
 def run(tier):
     chk = common.Check("C05", tier)
     thorough = tier == "thorough"
+    from .. import translate_proj
+
+    try:
+        pr = translate_proj.generate_projectors()
+        okp, logp, _ = common.lake_build(["YadismModel.Generated.Projectors"])
+        chk.obligation("eko-projectors-generated", okp, "" if okp else logp[-300:])
+        chk.extra["projectors"] = pr
+    except Exception as e:  # noqa
+        chk.obligation("eko-projectors-generated", False, f"{type(e).__name__}: {e}"[:300])
     common.lean_proof_step(chk, "YadismModel.Properties.C05", thorough=thorough)
     r = common.rng("C05")
     corr_sv.run_sv(chk, 600 if thorough else 60, r)
@@ -151,7 +160,7 @@ def run(tier):
         search_switch_off(chk, common.rng('C05-n3lo'), 1, 3, only_pto=3)
     chk.assumptions += [
         "RGE theorem is over an arbitrary commutative Q-algebra (the convolution algebra); that 'P_qq_0^2', 'P_qg_0P_gq_0', ... are the products of their factors is a hypothesis (structure Products), checked on Mellin moments of the real kernels each run; their x-space local terms are C03's obligation",
-        "how the seven sector operators recombine into quark-singlet/gluon components (actS) is eko's projector algebra: taken from eko, exercised by the compute_local correspondence with eko's real projectors",
+        "how the seven sector operators recombine into quark-singlet/gluon components (actS) rests on the matrix-unit relations of eko's projectors: decided by the kernel on the exact matrices regenerated from the installed eko each run (projector_relations, nf = 3..6); the step from those relations to the sector-wise algebra is the standard one and is not formalised; additionally exercised by the compute_local correspondence with eko's real projectors",
         "muF terms exist up to a_s^2 only (the (3,.) factorisation entries are a TODO in the source, as the property states)",
     ]
     return chk
